@@ -151,6 +151,7 @@ def run(shard, ctx):
             for sub in itertools.combinations(opt, r):
                 subsets.append(sub)
         for setname in c.sets:
+            fault_round(ctx, c, setname, dict(required_args(c, rng)), rng)
             for rep in range(shard["reps"]):
                 for sub in subsets:
                     req = required_args(c, rng)
@@ -263,6 +264,72 @@ def run(shard, ctx):
         SCSICommand.unmarshall = orig_unm
 
 
+class InjectedFault(Exception):
+    pass
+
+
+FAULTS = [TypeError, ValueError, KeyError, AttributeError, OSError, RuntimeError, IndexError, NotImplementedError, InjectedFault]
+
+
+def fault_round(ctx, c, setname, a, rng):
+    """the device fails *after* it has taken the command: still exactly one execute, the same exception object reaches
+    the caller, nothing is decoded, nothing is returned"""
+    import pyscsi.pyscsi.scsi_enum_command as E
+    from pyscsi.pyscsi.scsi_command import SCSICommand
+
+    from vmon import harness
+    from vmon.spec import dataout as DO
+
+    for exc_type in FAULTS:
+        for when in ("first", "second_only"):
+            calls = []
+            raised = []
+
+            class FailingDevice(harness.Recorder):
+                def execute(self, cmd, en_raw_sense=False):
+                    calls.append(cmd)
+                    if when == "first" and len(calls) == 1 or when == "second_only" and len(calls) == 2:
+                        e = exc_type("injected after the command was taken")
+                        raised.append(e)
+                        raise e
+
+            dev = FailingDevice(getattr(E, setname))
+            s = harness.make_facade(dev)
+            n_unm = [0]
+            orig = SCSICommand.unmarshall
+
+            def hooked(self, **kw):
+                n_unm[0] += 1
+                return orig(self, **kw)
+
+            SCSICommand.unmarshall = hooked
+            try:
+                try:
+                    ret = harness.facade_call(c, s, DO.fresh(a) if c.custom else dict(a))
+                    err = None
+                except Exception as e:  # noqa: BLE001
+                    ret, err = None, e
+            finally:
+                SCSICommand.unmarshall = orig
+            label = c.facade
+            wit = {"method": label, "table": setname, "fault": exc_type.__name__, "when": when, "args": a}
+            ctx.case((label, setname, "fault", exc_type.__name__, when), True)
+            ctx.count("fault_injections")
+            if when == "second_only":
+                if len(calls) != 1:
+                    ctx.fail("C13:%s.execute_count_%d" % (label, len(calls)), "device.execute evaluated %d times" % len(calls), wit)
+                continue
+            if len(calls) != 1:
+                ctx.fail("C13:facade.command_resent_after_device_error.%s" % exc_type.__name__,
+                         "%s: device raised %s after taking the command and the facade sent it %d times" % (label, exc_type.__name__, len(calls)), wit)
+            if err is None:
+                ctx.fail("C13:facade.device_error_swallowed.%s" % exc_type.__name__, "%s returned normally although the device raised %s" % (label, exc_type.__name__), wit)
+            elif raised and err is not raised[0]:
+                ctx.fail("C13:facade.device_error_replaced.%s" % exc_type.__name__, "%s: caller got %r, device raised %r" % (label, err, raised[0]), wit)
+            if n_unm[0]:
+                ctx.fail("C13:facade.decoded_after_device_error", "%s decoded the buffer although the device raised" % label, wit)
+
+
 def same(a, b):
     if isinstance(a, dict) and isinstance(b, dict):
         return a.keys() == b.keys() and all(same(a[k], b[k]) for k in a)
@@ -275,7 +342,7 @@ def same(a, b):
 
 def finalize(merged, tier):
     c = merged["counters"]
-    for k in ("facade_calls", "execute_hook_evaluations", "results_compared"):
+    for k in ("facade_calls", "execute_hook_evaluations", "results_compared", "fault_injections"):
         if c.get(k, 0) == 0:
             merged["inconclusive"].append("monitor never reached: %s" % k)
     n = len({m.split(":")[0] for m in merged["sets"].get("methods", ())})
